@@ -186,11 +186,11 @@ theorem hasPrio_true_iff (a b : Flags) : hasPrio a b true = true ↔ ePrio a ≥
   · rename_i h; simp; omega
 
 theorem leafRule_self_wins {a b : Node} (h : ePrio a.flags > ePrio b.flags) :
-    leafRule a b = (a.setFlags (replaceOtherFlags a.flags b.flags), true) := by
+    leafRule a b = (propagate (a.setFlags (replaceOtherFlags a.flags b.flags)), true) := by
   simp [leafRule, (hasPrio_false_iff _ _).2 h]
 
 theorem leafRule_other_wins {a b : Node} (h : ¬ ePrio a.flags > ePrio b.flags) :
-    leafRule a b = (b.setFlags (replaceOtherFlags b.flags a.flags), false) := by
+    leafRule a b = (propagate (b.setFlags (replaceOtherFlags b.flags a.flags)), false) := by
   have : hasPrio a.flags b.flags false = false := by
     cases hh : hasPrio a.flags b.flags false with
     | false => rfl
@@ -214,5 +214,18 @@ theorem replaceSelfFlags_new (s o : Flags) : (replaceSelfFlags s o).new = s.new 
 
 theorem flags_setFlags (n : Node) (f : Flags) : (n.setFlags f).flags = f := by
   cases n <;> rfl
+
+/-- `_propagate_implicit_values` never touches the node's own flags -/
+theorem flags_propagate (n : Node) : (propagate n).flags = n.flags := by
+  cases n with
+  | leaf f k => rfl
+  | comp f k cs => simp only [propagate]; split <;> rfl
+
+theorem propagate_leaf (f : Flags) (k : LeafKind) : propagate (.leaf f k) = .leaf f k := rfl
+
+theorem isComp_propagate (n : Node) : (propagate n).isComp = n.isComp := by
+  cases n with
+  | leaf f k => rfl
+  | comp f k cs => simp only [propagate]; split <;> rfl
 
 end AY
